@@ -2964,8 +2964,8 @@ pub fn contract_pipeline_integer_defaults<C: Ctx>(cx: &mut C) {
             // a set expression: the field is typed from the folded range
             ("", "INTEGER (0..10 | 20..300)", "5", "u16", "5"),
             // a value reference whose own type differs from the component's type
-            ("max-val INTEGER ::= 300", "INTEGER (0..65535)", "max-val", "u16", "MAX_VAL"),
-            ("Small ::= INTEGER (0..255) max-val Small ::= 200", "INTEGER (0..255)", "max-val", "u8", "MAX_VAL"),
+            ("max-val INTEGER ::= 300", "INTEGER (0..65535)", "max-val", "u16", "300"),
+            ("Small ::= INTEGER (0..255) max-val Small ::= 200", "INTEGER (0..255)", "max-val", "u8", "200"),
             // a named number of an unconstrained root type, used through constrained references
             ("DU ::= INTEGER { uno(1), due(2) }", "DU (0..10)", "due", "DU", "DU (Integer :: from (2i128))"),
             ("DU ::= INTEGER { uno(1), due(2) } DU2 ::= DU (0..10)", "DU2", "uno", "DU2", "DU2 (DU (Integer :: from (1i128)))"),
@@ -2988,7 +2988,8 @@ pub fn contract_pipeline_integer_defaults<C: Ctx>(cx: &mut C) {
         } else if body == "MAX_VAL" {
             vob!(cx, "C06.pipeline_defaults.referenced_constant_is_declared_with_the_type_the_function_returns", g.contains(&format!("pub const MAX_VAL : {ret_ty} =")));
         } else {
-            let n: i128 = dflt.parse().unwrap_or(0);
+            // (a referenced value is inlined as its number)
+            let n: i128 = dflt.parse().unwrap_or_else(|_| want_body.parse().unwrap_or(0));
             let lit = if n < 0 { format!("- {}", -n) } else { n.to_string() };
             vob!(cx, "C06.pipeline_defaults.default_literal_has_the_type_the_function_returns", if ret_ty == "Integer" { body == format!("Integer :: from ({lit}i128)") } else { body == lit });
         }
@@ -3272,8 +3273,11 @@ pub fn contract_value_rendering<C: Ctx>(cx: &mut C) {
 pub fn contract_pipeline_value_assignments<C: Ctx>(cx: &mut C) {
     #[cfg(not(kani))]
     {
-        let kind = cx.choose(15);
+        let kind = cx.choose(16);
         let (decl, want): (String, String) = match kind {
+            // a value assignment whose value is a reference to another value assignment
+            15 => { let (ty, rust, n) = [("INTEGER", "", 5i128), ("INTEGER (0..255)", "u8", 200), ("INTEGER (-128..127)", "i8", -7)][cx.choose(3)];
+                    (format!("a {ty} ::= {n} v {ty} ::= a"), if rust.is_empty() { format!("pub static V : LazyLock < Integer > = LazyLock :: new (|| Integer :: from ({n}i128))") } else { format!("pub const V : {rust} = {} ;", if n < 0 { format!("- {}", -n) } else { n.to_string() }) }) }
             // an enumeral that two ENUMERATED types declare: the value is the enumeral OF ITS GOVERNING TYPE
             14 => { let gov = ["Alpha", "Zeta", "Mid"][cx.choose(3)]; let en = ["red", "blue"][cx.choose(2)];
                     (format!("Alpha ::= ENUMERATED {{ red, blue }} Zeta ::= ENUMERATED {{ green, red, blue }} Mid ::= ENUMERATED {{ blue(7), red(9) }} v {gov} ::= {en}"), format!("pub const V : {gov} = {gov} :: {en} ;")) }
